@@ -35,10 +35,11 @@ Definition mx_final : res world := Eval vm_compute in Inv.run_ops RT tab_element
 Example mx_wf : wf_ops RT tab_element tab_enum nv_check 1048576 [] ex_fmt mx_hist empty_world.
 Proof. unfold mx_hist. do 16 wf_step. exact I. Qed.
 
-Example mx_panics : exists w site,
+(* AFTER THE FIX in element.rs (the mask is read from the recalculated type): the same state is checked without a panic *)
+Example mx_fixed : exists w r,
   Inv.run_ops RT tab_element tab_enum nv_check 1048576 [] mx_hist empty_world = Val w /\
   option_map n_parent (w_nodes w 10) = Some (PElem 18) /\
-  f_check RT w 0 1 = Pan site.
+  f_check RT w 0 1 = Val r.
 Proof.
   destruct mx_final as [w| |] eqn:E; try (vm_compute in E; discriminate).
   assert (Hrun : Inv.run_ops RT tab_element tab_enum nv_check 1048576 [] mx_hist empty_world = Val w)
